@@ -726,9 +726,14 @@ class Circuit:
             # if blocks were started (at least some of them), they must be stopped;
             # save the state first, because stop may invalidate the state information
             if start_ok and self.persistent_dict is not None:
-                for blk in started_blocks.intersection(self.getblocks(addons.AddonPersistence)):
-                    blk.save_persistent_state()
-                self.persistent_dict['edzed-stop-time'] = time.time()
+                try:
+                    for blk in started_blocks.intersection(
+                            self.getblocks(addons.AddonPersistence)):
+                        blk.save_persistent_state()
+                    self.persistent_dict['edzed-stop-time'] = time.time()
+                except Exception as err:
+                    # a failing storage must not prevent the cleanup
+                    _logger.warning("Persistent data save error: %s", err)
             await self._stop_sblocks(started_blocks)
         assert self._error is not None
         raise self._error
